@@ -118,7 +118,8 @@ func (x *g) genSecurityGadgetService() {
 	x.s.Schemes = append(x.s.Schemes,
 		&spec.Scheme{Name: "gjwt", Kind: "jwt", Scopes: []string{"g:read", "g:write"}},
 		&spec.Scheme{Name: "gkey", Kind: "apikey"},
-		&spec.Scheme{Name: "gkey2", Kind: "apikey"})
+		&spec.Scheme{Name: "gkey2", Kind: "apikey"},
+		&spec.Scheme{Name: "goauth", Kind: "oauth2"}) // flows without any scope
 	str := func() *spec.Type { return &spec.Type{Kind: spec.String} }
 	list := &spec.Method{Name: "list",
 		Security: []*spec.Requirement{{Schemes: []string{"gjwt"}, Scopes: []string{"g:read"}}},
@@ -143,6 +144,13 @@ func (x *g) genSecurityGadgetService() {
 		Result: &spec.Attr{Type: str()},
 		HTTP: &spec.HTTP{Routes: []spec.Route{{Verb: "POST", Path: "/pair"}},
 			Headers: []spec.Loc{{Attr: "key_gkey", Wire: "X-G-Key"}}, Query: []spec.Loc{{Attr: "key_gkey2", Wire: "k2"}}}}
-	x.s.Services = append(x.s.Services, &spec.Service{Name: "secgadgets", BasePath: "/secgadgets", Methods: []*spec.Method{list, create, pair}})
-	x.s.AddFeature("security-gadget-service", "requirement-seen-scheme-then-new-scheme", "scheme-jwt", "scheme-apikey", "method-security")
+	// an OAuth2 scheme that declares no scope
+	flow := &spec.Method{Name: "flow",
+		Security: []*spec.Requirement{{Schemes: []string{"goauth"}}},
+		Payload: &spec.Attr{Type: &spec.Type{Kind: spec.Object, Attrs: []*spec.Attr{
+			{Name: "access", Type: str(), Sec: "accesstoken"}, {Name: "note", Type: str()}}, Required: []string{"access"}}},
+		Result: &spec.Attr{Type: str()},
+		HTTP:   &spec.HTTP{Routes: []spec.Route{{Verb: "POST", Path: "/flow"}}}}
+	x.s.Services = append(x.s.Services, &spec.Service{Name: "secgadgets", BasePath: "/secgadgets", Methods: []*spec.Method{list, create, pair, flow}})
+	x.s.AddFeature("security-gadget-service", "requirement-seen-scheme-then-new-scheme", "scheme-jwt", "scheme-apikey", "scheme-oauth2", "oauth2-without-scopes", "method-security")
 }
